@@ -51,6 +51,7 @@ func todHandler(args []string) (string, []string) {
 		if x.IsValid() && *r != x {
 			ps.add("C18", "time=%d:%d:%d fractional-hours=%v converts back to %s", h, m, s, x.GetFloatHour(), r.String())
 		}
+		fhResultKeeps(&ps, x.GetFloatHour(), r)
 		return fmt.Sprintf("%d %d %d", r.Hour, r.Minute, r.Second), ps.out()
 	case len(args) == 2 && args[0] == "fh":
 		bits, err := strconv.ParseUint(args[1], 10, 64)
@@ -71,7 +72,25 @@ func todHandler(args []string) (string, []string) {
 				ps.add("C18", "fractional-hour=%v (bits %d) converts to %s which is %s seconds away", fh, bits, r.String(), diff.FloatString(6))
 			}
 		}
+		fhResultKeeps(&ps, fh, r)
 		return fmt.Sprintf("%d %d %d", r.Hour, r.Minute, r.Second), ps.out()
 	}
 	return "bad-request", nil
+}
+
+// a result handed out earlier must not change when the function is called again, and changing a
+// result must not change what the function answers next time (results share no memory)
+func fhResultKeeps(ps *propSink, fh float64, r *lib.HMS) {
+	saved := *r
+	other := lib.FloatHourToHMS(math.Mod(math.Abs(fh)+7.25, 24))
+	if *r != saved {
+		ps.add("C18", "fractional-hour=%v: the result %s handed out earlier reads %s after the function was called again with another argument", fh, saved.String(), r.String())
+		return
+	}
+	other.Hour, other.Minute, other.Second = 99, 99, 99
+	r.Hour, r.Minute, r.Second = 98, 98, 98
+	if again := lib.FloatHourToHMS(fh); *again != saved {
+		ps.add("C18", "fractional-hour=%v: converts to %s, but after the caller changed that result the same call gives %s", fh, saved.String(), again.String())
+	}
+	*r = saved
 }
